@@ -319,7 +319,7 @@ theorem loopHead_common (cx : Ctx) (pre : Pre) (s : XS) (num : Int) :
     source sets the two numbers does not matter) -/
 theorem loopHead_lookup (cx : Ctx) (pre : Pre) (s : XS) (num : Int) (k : String) :
     (loopHead cx pre s num).cur.lookup k =
-      (cx.penv.reverse.lookup k <|> if k = "numprocs" then some (.i pre.numprocs) else if k = "process_num" then some (.i num)
+      (cx.senv.reverse.lookup k <|> if k = "numprocs" then some (.i pre.numprocs) else if k = "process_num" then some (.i num)
                                     else s.common.lookup k) := by
   simp only [loopHead, pfsLoopHead, List.foldl, applyStep, XS.mut, lookup_dupdate, lookup_dset] <;>
     (by_cases h1 : k = "numprocs" <;> by_cases h2 : k = "process_num" <;> simp [h1, h2])
